@@ -21,7 +21,7 @@ import sesslib
 import c19_dwarf
 from vlib import ToolError, log, WORK
 
-PUPPETS = ["scope5", "rec6"]
+PUPPETS = ["scope5", "rec6", "align7"]
 CLASSES = {"out_of_scope_variable_listed", "sibling_block_variable_listed", "declared_later_listed",
            "in_scope_variable_missing", "shadowed_name_resolves_to_outer", "wrong_frame_value", "wrong_value",
            "wrong_register", "query_failed", "value_from_callers_frame_base",
@@ -410,6 +410,8 @@ def run(rep, tier, replay):
     st = acc["stats"]
     if st.get("shadow", 0) == 0 or st.get("recur", 0) == 0:
         raise ToolError(f"vacuous run: no judged position had shadowed bindings / recursive activations ({st})")
+    if any(b[1] == 0 for b in cfg["builds"]) and st.get("sprel", 0) == 0:
+        raise ToolError("vacuous run: no rsp-relative (DW_OP_breg7) variable of an outer frame was judged (puppet align7)")
     if any(b[1] == 1 for b in cfg["builds"]) and st.get("regvals", 0) == 0:
         raise ToolError("vacuous run: no register-located value was judged in the opt-level 1 builds")
     cov = {"states": states, "transitions": trans, "traces_validated_against_impl": acc["sessions"],
@@ -417,7 +419,8 @@ def run(rep, tier, replay):
            "observations_not_judgeable": st.get("skipped", 0), "outer_frame_observations": st.get("outer", 0),
            "observations_with_shadowing": st.get("shadow", 0), "observations_with_recursive_activations": st.get("recur", 0),
            "in_scope_bindings_judged": st.get("names", 0), "values_compared_with_raw_memory_or_registers": st.get("values", 0),
-           "register_located_values_compared": st.get("regvals", 0), "frame_commands_refused": acc["frame_cmds_failed"],
+           "register_located_values_compared": st.get("regvals", 0),
+           "rsp_relative_outer_frame_values_compared": st.get("sprel", 0), "frame_commands_refused": acc["frame_cmds_failed"],
            "position_frame_pairs_covered": pairs_total, "distinct_observations": len(acc["distinct"]),
            "design_level_prediction_first_valid_die_wins": pred, "per_build": per, "samples": samples}
     if os.environ.get("VERIF_C19_DUMP"):
